@@ -2,7 +2,7 @@
 import engine, vlib, corr
 
 OPS = ["add", "transpose", "copy", "copy_row", "set_ui", "submatrix", "concat", "stack", "extract_u", "extract_l"]
-PROOFS = []
+PROOFS = ["Properties_C08"]
 
 
 def run(res, tier, seed):
